@@ -591,6 +591,36 @@ impl<'c> World<'c> {
         if self.st.connected_clients() != netcode_ids.len() {
             return Err(Violation::new("C20/connected_clients-disagrees", format!("{} vs {:?}", self.st.connected_clients(), netcode_ids)));
         }
+        // the transport's own lookups name the session that was authenticated for the id, and nothing for ids without one
+        if self.cfg.end != End::DuplicateId {
+            for (i, c) in self.clients.iter().enumerate() {
+                let held = netcode_ids.contains(&c.id);
+                let ud = self.st.user_data(c.id);
+                let since = self.st.time_since_last_received_packet(c.id);
+                if held {
+                    if ud.map(|u| u[0]) != Some(i as u8) {
+                        return Err(Violation::new(
+                            "C20/transport-lookup-names-another-session",
+                            format!("tick {}: transport.user_data({}) starts with {:?}, the token of that client sealed {}", tick, c.id, ud.map(|u| u[0]), i),
+                        ));
+                    }
+                    match since {
+                        Some(d) if d <= Duration::from_millis(TIMEOUT_S as u64 * 1000 + 2250 + DT_MS) => {}
+                        other => {
+                            return Err(Violation::new(
+                                "C20/transport-lookup-names-another-session",
+                                format!("tick {}: transport.time_since_last_received_packet({}) = {:?} for a live session (time-out {} s)", tick, c.id, other, TIMEOUT_S),
+                            ));
+                        }
+                    }
+                } else if ud.is_some() || since.is_some() {
+                    return Err(Violation::new(
+                        "C20/transport-lookup-names-another-session",
+                        format!("tick {}: the transport answers user_data / time_since_last_received_packet for id {} which has no session", tick, c.id),
+                    ));
+                }
+            }
+        }
         // a session without authentic client traffic for longer than the time-out must be gone
         let timeout_ticks = (TIMEOUT_S as u64 * 1000 / DT_MS) as u32;
         for (i, c) in self.clients.iter().enumerate() {
